@@ -25,7 +25,8 @@ from fractions import Fraction
 from pathlib import Path
 
 ROOT = Path(__file__).resolve().parents[2]
-OUT = ROOT / "lean" / "OPM" / "Gen" / "UnitTable.lean"
+from vp import core as _core  # the Lean project this run works in (private copy for scratch trees)
+OUT = _core.LEAN / "OPM" / "Gen" / "UnitTable.lean"
 
 
 def _lean_str(s: str) -> str:
